@@ -586,6 +586,10 @@ class FlowDriver:
 
     async def apply(self, bad):
         q = self.w.ctx.to_proxy_queue
+        if not q.items:
+            # the implementation did not put what the model put earlier on this path; that edge is
+            # replayed and reported on its own, here there is simply nothing to apply
+            return
         if bad:
             kind, fid, state = pickle.loads(q.items[0])
             state = dict(state)
@@ -594,17 +598,24 @@ class FlowDriver:
         await self.w.rt.apply_one()
 
     # ---- observation ------------------------------------------------------------------
-    def observe(self):
+    def _project_state(self, state):
         from mitmproxy.http import HTTPFlow
+        try:
+            f = HTTPFlow.from_state(state)
+        except Exception as e:
+            return ["!unusable state %s" % type(e).__name__]
+        return self.w.project_proxy(f, self)
+
+    def observe(self):
         w = self.w
         fromq = []
         for b in w.ctx.from_proxy_queue.items:
             ev, state = pickle.loads(b)
-            fromq.append([ev, w.project_proxy(HTTPFlow.from_state(state), self)])
+            fromq.append([ev, self._project_state(state)])
         toq = []
         for b in w.ctx.to_proxy_queue.items:
             kind, fid, state = pickle.loads(b)
-            toq.append([kind, fid == self.flow.id, w.project_proxy(HTTPFlow.from_state(state), self)])
+            toq.append([kind, fid == self.flow.id, self._project_state(state)])
         px = [bool(self.flow.intercepted), w.project_proxy(self.flow, self)] if self.flow is not None else None
         mf = None
         if self.main is not None:
@@ -664,20 +675,25 @@ async def _run_path(path, n_addons, compare_from=None, brand_new=False):
         n = a["n"]
         out = {"exc": False, "res": "ok"}
         hooks = None
-        if n == "InterceptRequest":
-            fd.intercept_request(a["browser"], a["hdr"])
-        elif n == "InterceptResponse":
-            fd.intercept_response(a["bridge"])
-        elif n == "Handle":
-            st, res, hooks = await fd.handle(a["cfg"])
-            out = {"exc": st == "raise", "res": "ok", "detail": res}
-        elif n == "AddonCall":
-            out = {"exc": False, "res": fd.addon_call(a["op"], a["mod"])}
-        elif n == "Apply":
-            await fd.apply(a["bad"])
-            out = {"exc": False, "res": "bad" if a["bad"] else "ok"}
-        else:
-            raise common.MachineryError("unknown action " + n)
+        try:
+            if n == "InterceptRequest":
+                fd.intercept_request(a["browser"], a["hdr"])
+            elif n == "InterceptResponse":
+                fd.intercept_response(a["bridge"])
+            elif n == "Handle":
+                st, res, hooks = await fd.handle(a["cfg"])
+                out = {"exc": st == "raise", "res": "ok", "detail": res}
+            elif n == "AddonCall":
+                out = {"exc": False, "res": fd.addon_call(a["op"], a["mod"]) if fd.main is not None else "no flow object"}
+            elif n == "Apply":
+                await fd.apply(a["bad"])
+                out = {"exc": False, "res": "bad" if a["bad"] else "ok"}
+            else:
+                raise common.MachineryError("unknown action " + n)
+        except common.MachineryError:
+            raise
+        except Exception as e:   # the implementation raised where the model has no exception: an observation
+            out = {"exc": False, "res": "impl raised %s: %s" % (type(e).__name__, str(e)[:100])}
         if compare_from is not None and i >= compare_from or i == len(path) - 1:
             results.append((i, fd.observe(), out, list(fd.put_log), hooks))
     return results
@@ -787,6 +803,9 @@ def _b1(chk: Check, c, label):
     gc.freeze()
     _G, _NADD = g, c["naddons"]
     ids = g.reachable_edges()
+    frac = float(os.environ.get("VERIF_C15_SAMPLE", "1") or 1)     # development aid only (mutant triage)
+    if frac < 1:
+        ids = sorted(chk.rng.sample(ids, max(1, int(len(ids) * frac))))
     # deepest first inside a chunk is irrelevant; interleave so that chunks cost about the same
     chunks = [ids[i::common.NCPU * 4] for i in range(common.NCPU * 4)]
     results = common.parallel_map(_replay_chunk, [ch for ch in chunks if ch])
@@ -801,8 +820,6 @@ def _b1(chk: Check, c, label):
         for d in r[0]["drift"]:
             if len(chk.notes) < 10:
                 chk.notes.append({"drift (not a violation): pump_proxy_event raised/did not raise unlike the model": d})
-    if exc_seen == 0:
-        raise common.MachineryError("no scripted fault ever made pump_proxy_event raise: fault injection is vacuous")
     for e in g.edges:
         if e["src"] != e["dst"]:
             chk.nontrivial(("edge", label, e["_s"], common.skey(e["act"])))
@@ -866,6 +883,8 @@ def run(chk: Check):
         _b1(chk, dict(kinds=["normal", "wrapper", "proxyonly", "none"], pairs=[12], behaviours=ALLB, naddons=2, faults=["none", "cap"],
                       maxcalls=1, bad=[False]), "N2")
         _b2(chk, 1600, 5, "walks")
+    if chk.cov.get("b1_raise_points_expected", 0) and not chk.cov.get("b1_raise_points_reached", 0) and not chk.violations:
+        raise common.MachineryError("no scripted fault ever made pump_proxy_event raise: fault injection is vacuous")
     chk.cov["exhaustive"] = True
 
 
